@@ -116,13 +116,16 @@ class DotHooks(Hooks):
         pat = re.compile(r'(?<![A-Za-z0-9_.>#])%s(?![A-Za-z0-9_#])' % re.escape(v))
         return frozenset(x for x in facts if x[0] == 'rel' or not any(isinstance(y, str) and pat.search(y) for y in x[1:]))
 
-    def _removal(self, facts, v, loc):
+    def _removal(self, facts, v, loc, freed=False):
         self.sites['removals'].add(str(loc))
         for w in self._aliases(facts, v):
             dots = self._dots(facts, w)
             if not dots or ('removed', w) in facts:
                 continue
             n = dots[0][2]
+            if freed and n == 1 and ('last', w) in facts and any(('nonnull', x[2]) in facts for x in facts if x[0] == 'pred' and x[1] == w):
+                self.bad.append((loc, 'trailing-dot', w, 'a "." established to be the last segment and not the head of the path is released: '
+                                 'the trailing slash it stands for is lost unless it is rewritten to the empty segment'))
             if ('rel', True) in facts and n == 1:
                 if not (('nothead', w) in facts or ('last', w) in facts or ('nocolon', w) in facts):
                     self.bad.append((loc, 'essential-dot', w, 'in relative mode a "." is dropped although the path has not established that it is '
@@ -145,7 +148,7 @@ class DotHooks(Hooks):
             if mc and mc[0] == 'free' and len(i.args) > 1:
                 v = _ref(i.args[1])
                 if v is not None and 'PathSegment' in (self.f.locals.get(v) or ''):
-                    facts = self._removal(facts, v, i.loc)
+                    facts = self._removal(facts, v, i.loc, freed=True)
                 return facts
             if i.dst is not None and i.dst.k == 'ref':
                 facts = self._kill(facts, i.dst.v, i.loc)
@@ -351,7 +354,7 @@ def rule_dot_removal(ctx, chk, rules, prefix=''):
             if not found:
                 chk.ok(rules['nonempty-relative'], 'empty-path:none:%s' % name, f.loc, 'no path through the loop body empties the path in '
                        'relative mode without an established host', func=name)
-        for kind in ('dots-removed', 'essential-dot', 'updir-kept', 'new-head-colon'):
+        for kind in ('dots-removed', 'essential-dot', 'updir-kept', 'new-head-colon', 'trailing-dot'):
             if kind not in rules:
                 continue
             bad = [x for x in h.bad if x[1] == kind]
